@@ -148,7 +148,10 @@ def run_case(ctx, case):
             if g != exp[f] or (exp[f] is None) != (g is None):
                 diffs[f] = (exp[f], g)
         if (body[8] & 0x40) and (body[9] & 0x08):
-            ctx.skip("both aux-heat bits set: precedence not specified, not judged")
+            # both aux-heat flags reported: which of the two modes wins is not specified, but "off" is not among the candidates
+            ctx.skip("both aux-heat bits set: precedence not judged (only that aux heat is not reported off)")
+            if int(got["aux"]) not in (acstate.AUX_HEAT, acstate.AUX_ONLY):
+                diffs["aux"] = ("AUX_HEAT or AUX_ONLY", int(got["aux"]))
         elif int(got["aux"]) != exp["aux"]:
             diffs["aux"] = (exp["aux"], int(got["aux"]))
         if exp["mode_raw"] in VALID_MODES:
